@@ -1,12 +1,14 @@
 package rg
 
 import (
+	"encoding/json"
 	"flag"
 	"fmt"
 	"os"
 	"path/filepath"
 	"sort"
 	"strconv"
+	"strings"
 	"time"
 )
 
@@ -36,6 +38,7 @@ func Main(args []string) int {
 	explain := fs.String("explain", "", "replay file to explain (re-derives on current tree)")
 	list := fs.Bool("list", false, "list all obligations")
 	props := fs.Bool("props", false, "print the property ids that have checks")
+	manifest := fs.Bool("manifest", false, "print MANIFEST.json for the registered checks")
 	if err := fs.Parse(args); err != nil {
 		return 2
 	}
@@ -45,6 +48,10 @@ func Main(args []string) int {
 	seed, _ := strconv.Atoi(os.Getenv("VERIF_SEED"))
 	_ = explain
 	specs := Specs()
+	if *manifest {
+		printManifest(specs)
+		return 0
+	}
 	if *props {
 		var ids []string
 		for id := range specs {
@@ -110,6 +117,9 @@ func Main(args []string) int {
 				r.Run(c)
 			}()
 		}
+		if *tier == "thorough" {
+			c.mutationSelfCheck(*verif)
+		}
 		if *list {
 			for _, o := range c.Obs {
 				fmt.Printf("%-10s %-9s %s :: %s (%s) %s\n", o.Status, o.Rule, o.Func, o.Construct, o.Pos, o.Detail)
@@ -157,4 +167,59 @@ func flagSet(fs *flag.FlagSet, name string) bool {
 		}
 	})
 	return set
+}
+
+func printManifest(specs map[string]*PropSpec) {
+	var ids []string
+	for id := range specs {
+		ids = append(ids, id)
+	}
+	sort.Strings(ids)
+	base := map[string]any{}
+	if b, err := os.ReadFile("/root/.vp/BASELINE.json"); err == nil {
+		json.Unmarshal(b, &base)
+	}
+	var checks []map[string]any
+	for _, id := range ids {
+		sp := specs[id]
+		var rules []string
+		for _, r := range sp.Rules {
+			rules = append(rules, r.Name)
+		}
+		checks = append(checks, map[string]any{
+			"property_id":         id,
+			"quick_cmd":           "bin/rgcheck -prop " + id + " -tier quick",
+			"thorough_cmd":        "bin/rgcheck -prop " + id + " -tier thorough",
+			"evidence_file":       "/verif/evidence/" + id + ".json",
+			"replay_cmd_template": "bin/rgcheck -prop " + id + " -explain {path}",
+			"engine":              "rgcheck",
+			"level_claimed": map[string]any{
+				"category":   "other",
+				"text":       sp.Explanation,
+				"design_ref": "DESIGN.md section 3 (" + id + ") and section 2 (rules " + strings.Join(rules, ", ") + ")",
+			},
+			"level_note": "Static analysis of the type-checked SSA form of /repo's current working tree (go/packages + go/ssa, x/tools v0.29.0) plus the Go compiler's bounds-check-elimination report; decides structural necessary conditions only, for every path of the analysed functions. Trusted: go/types, go/ssa, the compiler's prove pass, the rule implementations and reviewed tables under /verif/checker, and: " + strings.Join(sp.Assumptions, "; ") + ". Genuine defects that are recorded rather than repaired are listed in /verif/known_findings.json and printed as KNOWN-FINDING lines.",
+			"technique":  "static analysis: " + strings.Join(rules, ", ") + " (SSA dataflow: lockset / must-pass-through on the success subgraph / path-state guard dominance / difference-constraint bounds proving / provenance slicing; who-may-call and writer-set tables)",
+		})
+	}
+	m := map[string]any{
+		"version":   1,
+		"setup_cmd": "cd /verif/checker && GOFLAGS=-mod=mod GOPROXY=off GOSUMDB=off GOTOOLCHAIN=local GOWORK=off go build -o /verif/bin/rgcheck ./cmd/rgcheck",
+		"hooks": map[string]any{
+			"guard":            "verif",
+			"enable":           "none - static analysis reads the unmodified sources; no hooks or instrumentation are compiled into /repo",
+			"baseline_off_cmd": base["cmd"],
+			"source_commits":   []string{},
+			"add_only":         true,
+		},
+		"engines": []map[string]any{{
+			"name": "rgcheck", "path": "/verif/checker", "serves_properties": ids,
+			"kind_free_text": "repository-specific static analyser (Go, golang.org/x/tools v0.29.0: go/packages, go/ssa) with a rule catalogue R0..R27; see DESIGN.md",
+		}},
+		"checks":         checks,
+		"not_applicable": []any{},
+		"notes":          "All 20 properties are claimed at level 'other' through structural necessary conditions; the part of each property that static analysis cannot decide is stated in level_claimed.text. Seeded property-breaking changes used to test the checks are under /verif/seeded (never applied to /repo).",
+	}
+	b, _ := json.MarshalIndent(m, "", " ")
+	fmt.Println(string(b))
 }
